@@ -55,6 +55,7 @@ type Prover struct {
 	loadRep map[ssa.Value]ssa.Value
 	loadsOK bool
 	inPost  bool
+	inNeq   bool
 	where   map[ssa.Instruction]ipos
 	writers []ssa.Instruction
 	f       *fa
@@ -114,7 +115,7 @@ func (P *Prover) atom(kind int, val ssa.Value, inner Poly, c int64, uns bool) *A
 			if call != nil && !P.inPost {
 				if f := call.Call.StaticCallee(); f != nil && P.c != nil && P.c.inModule(f) && f != P.fn {
 					P.inPost = true
-					for _, fact := range P.instPost(call, P.calleePosts(f, -1, false)) {
+					for _, fact := range P.instPost(call, P.calleePosts(f, -1, false, P.argLower(call))) {
 						P.global = append(P.global, fact)
 					}
 					P.inPost = false
@@ -509,11 +510,11 @@ type postFact struct {
 // calleePosts computes, for a module function with a body, which simple facts about its integer
 // results hold at every return (boolIdx < 0) or at every return whose bool result boolIdx is the
 // constant boolVal. Candidates: r >= 0, r <= len(p) for each string/slice parameter p.
-func (P *Prover) calleePosts(f *ssa.Function, boolIdx int, boolVal bool) []postFact {
+func (P *Prover) calleePosts(f *ssa.Function, boolIdx int, boolVal bool, lower []int64) []postFact {
 	if P.c == nil || !P.c.inModule(f) || f.Blocks == nil {
 		return nil
 	}
-	key := fmt.Sprintf("%d/%v", boolIdx, boolVal)
+	key := fmt.Sprintf("%d/%v/%v", boolIdx, boolVal, lower)
 	if m, ok := postCache[f]; ok {
 		if v, ok := m[key]; ok {
 			return v
@@ -543,6 +544,12 @@ func (P *Prover) calleePosts(f *ssa.Function, boolIdx int, boolVal bool) []postF
 		return nil
 	}
 	CP := NewProver(P.c, f)
+	// lower bounds on integer parameters that the caller has established at this call site
+	for j, lb := range lower {
+		if lb > minI && j < len(f.Params) && isInt(f.Params[j].Type()) {
+			CP.global = append(CP.global, constP(lb).add(CP.poly(f.Params[j]), -1)) // lb - p <= 0
+		}
+	}
 	var out []postFact
 	res := f.Signature.Results()
 	for k := 0; k < res.Len(); k++ {
@@ -561,6 +568,13 @@ func (P *Prover) calleePosts(f *ssa.Function, boolIdx int, boolVal bool) []postF
 			out = append(out, postFact{res: k, kind: "ge0"})
 		}
 		for pi, prm := range f.Params {
+			if isInt(prm.Type()) && isUnsigned(prm.Type()) == isUnsigned(res.At(k).Type()) && intBits(prm.Type()) == 64 {
+				pp := prm
+				if try(func(ret *ssa.Return) Poly { return CP.poly(ret.Results[k]).add(CP.poly(pp), -1) }) {
+					out = append(out, postFact{res: k, kind: "leParam", param: pi})
+				}
+				continue
+			}
 			switch prm.Type().Underlying().(type) {
 			case *types.Slice, *types.Basic:
 				if bt, isB := prm.Type().Underlying().(*types.Basic); isB && bt.Info()&types.IsString == 0 {
@@ -584,7 +598,32 @@ func (P *Prover) calleePost(call *ssa.Call, boolIdx int, truth bool) []Poly {
 	if f == nil {
 		return nil
 	}
-	return P.instPost(call, P.calleePosts(f, boolIdx, truth))
+	return P.instPost(call, P.calleePosts(f, boolIdx, truth, P.argLower(call)))
+}
+
+// argLower: for each integer argument of the call, the best of the lower bounds 1 and 0 that is
+// provable at the call site (minI when neither is).
+func (P *Prover) argLower(call *ssa.Call) []int64 {
+	out := make([]int64, len(call.Call.Args))
+	was := P.inPost
+	P.inPost = true
+	saved := P.budget
+	for i, a := range call.Call.Args {
+		out[i] = minI
+		if !isInt(a.Type()) {
+			continue
+		}
+		p := P.poly(a)
+		P.budget = 2000
+		if P.prove(constP(1).add(p, -1), call.Block(), nil, nil, 3) {
+			out[i] = 1
+		} else if P.budget = 2000; P.prove(p.scale(-1), call.Block(), nil, nil, 3) {
+			out[i] = 0
+		}
+	}
+	P.budget = saved
+	P.inPost = was
+	return out
 }
 
 func (P *Prover) instPost(call *ssa.Call, pfs []postFact) []Poly {
@@ -611,6 +650,10 @@ func (P *Prover) instPost(call *ssa.Call, pfs []postFact) []Poly {
 		case "leLen":
 			if pf.param < len(call.Call.Args) {
 				out = append(out, r.add(P.lenOf(call.Call.Args[pf.param]), -1))
+			}
+		case "leParam":
+			if pf.param < len(call.Call.Args) {
+				out = append(out, r.add(P.poly(call.Call.Args[pf.param]), -1))
 			}
 		}
 	}
@@ -672,6 +715,11 @@ func (P *Prover) resolveNeq(fs []Poly, depth int) []Poly {
 				out = append(out, d.add(constP(1), 1))
 				done[i], changed = true, true
 			}
+		}
+	}
+	for i, d := range neqs {
+		if !done[i] {
+			out = append(out, P.neqMarker(d))
 		}
 	}
 	return out
@@ -862,6 +910,26 @@ func (P *Prover) prove(goal Poly, blk *ssa.BasicBlock, extra []Poly, hyps []hyp,
 		}
 	}
 	facts = P.resolveNeq(facts, 4)
+	// a disequality whose sign needs an inductive argument (first := -1; ...; if first != -1)
+	if !P.inNeq && depth >= 2 {
+		P.inNeq = true
+		for _, f := range facts {
+			if _, isNeq := f["!="]; !isNeq {
+				continue
+			}
+			d := f.clone()
+			delete(d, "!=")
+			if len(P.phisIn(d)) == 0 {
+				continue
+			}
+			if P.phiStep(d.scale(-1), blk, hyps, 3) { // d >= 0
+				facts = append(facts, d.scale(-1).add(constP(1), 1))
+			} else if P.phiStep(d, blk, hyps, 3) { // d <= 0
+				facts = append(facts, d.add(constP(1), 1))
+			}
+		}
+		P.inNeq = false
+	}
 	if P.inconsistent(facts) {
 		return true // the block (or edge) is infeasible under the known facts: anything holds
 	}
@@ -1314,4 +1382,41 @@ func (P *Prover) validAt(ld *ssa.UnOp, at ssa.Instruction) bool {
 		}
 	}
 	return true
+}
+
+// polyLoose translates an integer expression into a polynomial ignoring types: all integer
+// conversions are transparent and sub-word arithmetic is expanded. It is meant for comparing
+// the *shape* of two computations (constant agreement rules), never for bounds proofs.
+func (P *Prover) polyLoose(v ssa.Value) Poly {
+	for {
+		switch x := v.(type) {
+		case *ssa.Convert:
+			if isInt(x.Type()) && isInt(x.X.Type()) {
+				v = x.X
+				continue
+			}
+		case *ssa.ChangeType:
+			v = x.X
+			continue
+		}
+		break
+	}
+	if c, ok := constInt(v); ok {
+		return constP(c)
+	}
+	if bo, ok := v.(*ssa.BinOp); ok && isInt(bo.Type()) {
+		switch bo.Op {
+		case token.ADD:
+			return P.polyLoose(bo.X).add(P.polyLoose(bo.Y), 1)
+		case token.SUB:
+			return P.polyLoose(bo.X).add(P.polyLoose(bo.Y), -1)
+		case token.MUL:
+			return P.polyLoose(bo.X).mul(P.polyLoose(bo.Y))
+		case token.SHL:
+			if c, ok := constInt(bo.Y); ok && c >= 0 && c < 62 {
+				return P.polyLoose(bo.X).scale(1 << uint(c))
+			}
+		}
+	}
+	return atomP(P.atom(aVal, v, nil, 0, false).id)
 }
